@@ -397,7 +397,10 @@ where
     }
 
     fn start_list(&mut self, len: Self::Size) -> Result<Self::Size, Self::Error> {
-        let allocation_size = len * 2;
+        let allocation_size = match len.checked_mul(2) {
+            Some(size) => size,
+            None => return Err(DataError::from(format!("List length {} is too large", len))),
+        };
         let list_index = self.push_to_data_block(BasicData::UninitializedList(len, 0))?;
         for _ in 0..allocation_size {
             self.push_to_data_block(BasicData::Empty)?;
